@@ -23,6 +23,7 @@ for sid in ids:
         meta["detected_by"] = {"exit": 1, "at_repo_head": head,
                                "obligations": [{"tag": t, "unit": u, "how": ("bounded sweep (unit undecided)" if "bounded sweep" in msg else "verifier: " + msg[:80])} for t, u, msg in obl][:6],
                                "witness": not all(v[1] for v in viol)}
+        meta.pop("last_result", None)
     else:
         meta["detected_by"] = None
         meta["last_result"] = {"exit": rc, "at_repo_head": head, "undecided": [u[:200] for u in und][:3]}
